@@ -121,6 +121,46 @@ func main() {
 				r.Sample(rec)
 			}
 		}
+		// unusable bundles: construction must fail, or the resulting signer must trust nobody (in particular not the
+		// process-wide system pool, which contains the "system-pool-only" CA here)
+		garbage := write("garbage.pem", []byte("-----BEGIN CERTIFICATE-----\nnot base64\n-----END CERTIFICATE-----\n"))
+		empty := write("empty.pem", nil)
+		for bi, bundle := range [][]string{{filepath.Join(dir, "does-not-exist.pem")}, {garbage}, {empty}, {bundles["one-file-one-ca"][0], garbage}, nil, {}} {
+			c := r.Case("bad-bundle", bi)
+			if c == nil {
+				continue
+			}
+			r.Eval(1)
+			rec := map[string]any{"bundle": bundle}
+			r.Guard(c, "unusable bundle", rec, func() {
+				sysCert := sysCA.Issue(caserver.Leaf{CN: "crypki", IPs: []string{"127.0.0.2"}})
+				servers, port, err := caserver.StartGroup([]string{"127.0.0.2"}, []*tls.Config{{Certificates: []tls.Certificate{sysCert}, MinVersion: tls.VersionTLS12}})
+				if err != nil {
+					r.Inconclusive("cannot start server: " + err.Error())
+					return
+				}
+				defer servers[0].Stop()
+				ct := gen.MakeCert(gen.CertSpec{Key: gen.Pool()[0], KeyID: "from-system-pool-server", ValidAfter: 1, ValidBefore: 1 << 40})
+				servers[0].Set(func(context.Context, *proto.SSHCertificateSigningRequest) (*proto.SSHKey, error) {
+					return &proto.SSHKey{Key: string(ssh.MarshalAuthorizedKey(ct))}, nil
+				})
+				signer, err := crypki.NewSigner(crypki.SignerConfig{TLSClientKeyFile: clientKey, TLSClientCertFile: clientCert, TLSCACertFiles: bundle, CrypkiEndpoints: []string{"127.0.0.2"}, CrypkiPort: uint(port), Retries: 1, PerTryTimeout: 10 * time.Second})
+				if err != nil {
+					r.Count("unusable bundle refused at construction", 1)
+					r.Nontrivial(fmt.Sprintf("bad-bundle:%d", bi))
+					return
+				}
+				ctx, cancel := context.WithTimeout(context.Background(), 60*time.Second)
+				defer cancel()
+				certs, _, serr := signer.Sign(ctx, &proto.SSHCertificateSigningRequest{KeyMeta: &proto.KeyMeta{Identifier: "x"}, Principals: []string{"a"}, PublicKey: "k", Validity: 60})
+				if serr == nil || len(servers[0].Calls()) > 0 {
+					r.Violation(c, fmt.Sprintf("unusable-bundle-falls-back-to-other-trust:bundle#%d", bi), fmt.Sprintf("bundle %v: Sign err=%v certs=%d, the server trusted only through the system pool handled %d RPCs", bundle, serr, len(certs), len(servers[0].Calls())), rec)
+					return
+				}
+				r.Count("unusable bundle accepted at construction but trusts nobody", 1)
+				r.Nontrivial(fmt.Sprintf("bad-bundle:%d", bi))
+			})
+		}
 		r.Floor(int64(r.Pick(600, 6000)), int64(r.Pick(400, 4000)))
 	})
 }
